@@ -158,8 +158,10 @@ class P:
     def call(self, ident):
         # ID "(" ")"  |  ID "(" BWS expr BWS ")"  |  ID list_expr
         # ID "(" BWS named {BWS "," BWS named} BWS ")"
-        if self.peek(1) == ")":
-            self.next(); self.next()
+        if self.peek(1) == ")" or (self.peek(1) == "WS" and self.peek(2) == ")"):
+            self.next()
+            self.bws()
+            self.next()
             return self.mkcall(ident, [])
         save = self.i
         self.next()
